@@ -579,3 +579,441 @@ Proof.
       split; [exact H1|]. split; [split; [exact H2 | exact H3]|]. split; [exact H4 | exact H5].
   - split; [discriminate | intros [i [Hc _]]; discriminate].
 Qed.
+
+(* ---------------------------------------------------------------- requests *)
+Lemma conf_scope_var_iff sch u e : conf_scope_var sch u e = None <-> ScopeVarConforms sch u.
+Proof.
+  unfold conf_scope_var, ScopeVarConforms. destruct (find_etype sch (uty u)) as [i|].
+  - destruct (et_enum i) as [ch|] eqn:Hen.
+    + destruct (enum_ok ch u) eqn:E.
+      * split; auto. intros _. exists i. split; auto. intros ch' Hc. assert (ch' = ch) by congruence. subst ch'. apply enum_ok_In; exact E.
+      * split; [discriminate|]. intros [i' [Hi H]]. inversion Hi; subst i'. specialize (H ch Hen).
+        apply enum_ok_In in H. congruence.
+    + split; auto. intros _. exists i. split; auto. intros ch' Hc. congruence.
+  - split; [discriminate | intros [i [Hc _]]; discriminate].
+Qed.
+
+Lemma conf_context_iff sch a ctx : conf_context sch a ctx = None <-> ContextConforms sch a ctx.
+Proof.
+  unfold conf_context, ContextConforms. destruct (find_action sch a) as [ai|].
+  - rewrite cthen_none, value_uids_iff. split.
+    + intros [H1 H2]. exists ai. split; [reflexivity|]. split; [|exact H1]. apply tc_value_ty_iff.
+      destruct (tc_value_ty (VRecord ctx) (ai_context ai)); [reflexivity | discriminate].
+    + intros [ai' [Hi [H1 H2]]]. inversion Hi; subst ai'. split; [exact H2|].
+      apply tc_value_ty_iff in H1. rewrite H1. reflexivity.
+  - split; [discriminate | intros [ai [Hc _]]; discriminate].
+Qed.
+
+Lemma conf_scope_iff sch p a r :
+  conf_scope sch p a r = None <->
+  ScopeVarConforms sch p /\ ScopeVarConforms sch r /\
+  exists ai, find_action sch a = Some ai /\ In (uty p) (ai_principals ai) /\ In (uty r) (ai_resources ai).
+Proof.
+  unfold conf_scope. rewrite !cthen_none, !conf_scope_var_iff. apply and_iff2; [reflexivity|].
+  apply and_iff2; [reflexivity|].
+  destruct (find_action sch a) as [ai|].
+  - rewrite cthen_none. unfold applies_principal, applies_resource. split.
+    + intros [H1 H2]. exists ai. split; [reflexivity|]. split; apply existsb_name_In.
+      * destruct (existsb (name_eqb (uty p)) (ai_principals ai)); [reflexivity | discriminate].
+      * destruct (existsb (name_eqb (uty r)) (ai_resources ai)); [reflexivity | discriminate].
+    + intros [ai' [Hi [H1 H2]]]. inversion Hi; subst ai'.
+      apply existsb_name_In in H1. apply existsb_name_In in H2. rewrite H1, H2. split; reflexivity.
+  - split; [discriminate | intros [ai [Hc _]]; discriminate].
+Qed.
+
+Theorem conf_request_iff sch q : conf_request sch q = None <-> RequestConforms sch q.
+Proof.
+  unfold conf_request, RequestConforms. rewrite cthen_none, conf_scope_iff, conf_context_iff. tauto.
+Qed.
+
+(* the CSchemaType class (a Rust `expect` on the type conversion) is unreachable on a well-formed schema *)
+Lemma first_err_in {A} (f : A -> cres) l e : first_err f l = Some e -> exists x, In x l /\ f x = Some e.
+Proof.
+  induction l as [|x l IH]; cbn [first_err]; [discriminate|].
+  destruct (f x) as [e'|] eqn:E; cbn [cthen].
+  - intros [= <-]. exists x. split; [left; reflexivity | exact E].
+  - intros H. destruct (IH H) as [y [Hy Hf]]. exists y. split; [right; exact Hy | exact Hf].
+Qed.
+
+Lemma cthen_some a b e : cthen a b = Some e -> a = Some e \/ b = Some e.
+Proof. destruct a; cbn; intros H; auto. Qed.
+
+Lemma value_uids_not_schematype sch v : value_uids sch v <> Some CSchemaType.
+Proof.
+  induction v as [p|l IH|kvs IH|x] using value_ind'.
+  - destruct p as [b|z|s|u]; cbn [value_uids]; try discriminate.
+    unfold uid_ok. intros H. apply cthen_some in H as [H|H].
+    + destruct (find_etype sch (uty u)) as [i|]; [|discriminate]. destruct (et_enum i); [|discriminate].
+      destruct (enum_ok l u); discriminate.
+    + destruct (is_action_type (uty u) && negb (known_action sch u)); discriminate.
+  - rewrite value_uids_set. intros H. apply first_err_in in H as [x [Hx Hf]]. rewrite Forall_forall in IH.
+    apply (IH _ Hx Hf).
+  - rewrite value_uids_record. intros H. apply first_err_in in H as [x [Hx Hf]]. rewrite Forall_forall in IH.
+    apply (IH _ Hx Hf).
+  - discriminate.
+Qed.
+
+Theorem conf_entity_not_schematype sch e : schema_wf sch = true -> conf_entity sch e <> Some CSchemaType.
+Proof.
+  intros Hwf. destruct e as [u d]. unfold conf_entity. cbn [fst snd].
+  destruct (is_action_type (uty u)).
+  - unfold conf_action. destruct (action_entity sch u); [|discriminate]. destruct (deep_eq u d u e); discriminate.
+  - destruct (find_etype sch (uty u)) as [i|] eqn:Hf; [|discriminate].
+    pose proof (wf_find_etype _ _ _ Hwf Hf) as Hi. intros H.
+    apply cthen_some in H as [H|H].
+    { change (uid_ok sch u) with (value_uids sch (VEntity u)) in H. exact (value_uids_not_schematype _ _ H). }
+    apply cthen_some in H as [H|H].
+    { unfold conf_attrs in H. apply cthen_some in H as [H|H]; apply first_err_in in H as [x [Hx H]].
+      - destruct (has_key x (eattrs d)); discriminate.
+      - apply cthen_some in H as [H|H]; [|exact (value_uids_not_schematype _ _ H)].
+        destruct (lookup (fst x) (et_attrs i)) as [[t r]|] eqn:Hl.
+        + exact (conf_attr_value_not_schematype _ _ (wf_attr_ty _ _ _ _ Hi Hl) H).
+        + destruct (et_open i); discriminate. }
+    apply cthen_some in H as [H|H].
+    { unfold conf_ancestors in H. apply first_err_in in H as [x [Hx H]]. apply cthen_some in H as [H|H].
+      - change (uid_ok sch x) with (value_uids sch (VEntity x)) in H. exact (value_uids_not_schematype _ _ H).
+      - destruct (existsb (name_eqb (uty x)) (allowed_parent_types sch (uty u))); discriminate. }
+    unfold conf_tags in H. apply cthen_some in H as [H|H].
+    + destruct (et_tags i) as [t|] eqn:Ht.
+      * apply first_err_in in H as [x [Hx H]]. exact (conf_attr_value_not_schematype _ _ (wf_tag_ty _ _ Hi Ht) H).
+      * destruct (etags d); discriminate.
+    + apply first_err_in in H as [x [Hx H]]. exact (value_uids_not_schematype _ _ H).
+Qed.
+
+(* ---------------------------------------------------------------- single-fault rejection lemmas *)
+Lemma conf_value_false sch v t : conf_value sch v t = false <-> ~ ValueConforms sch v t.
+Proof.
+  rewrite <- conf_value_iff. destruct (conf_value sch v t); split; intros H; try discriminate; auto.
+  exfalso; apply H; reflexivity.
+Qed.
+
+(* faults propagate outwards through sets and records: "at any nesting depth" *)
+Lemma reject_in_set sch x l e :
+  In x l -> conf_value sch x e = false -> conf_value sch (VSet l) (TSet (Some e)) = false.
+Proof.
+  intros Hin H. apply conf_value_false. apply conf_value_false in H. intros [Ht Hu]. apply H. split.
+  - inversion Ht; subst. auto.
+  - intros u Hu'. apply Hu. econstructor; eauto.
+Qed.
+
+Lemma reject_in_record sch k x kvs attrs open t r :
+  In (k, x) kvs -> lookup k attrs = Some (t, r) -> conf_value sch x t = false ->
+  conf_value sch (VRecord kvs) (TRecord attrs open) = false.
+Proof.
+  intros Hin Hl H. apply conf_value_false. apply conf_value_false in H. intros [Ht Hu]. apply H. split.
+  - inversion Ht; subst. eauto.
+  - intros u Hu'. apply Hu. econstructor; eauto.
+Qed.
+
+Lemma reject_wrong_type sch v t : ~ TypeConforms v t -> conf_value sch v t = false.
+Proof. intros H. apply conf_value_false. intros [Ht _]. auto. Qed.
+
+Lemma reject_missing_required_field sch k t kvs attrs open :
+  In (k, (t, true)) attrs -> has_key k kvs = false -> conf_value sch (VRecord kvs) (TRecord attrs open) = false.
+Proof.
+  intros Hin Hk. apply conf_value_false. intros [Ht _]. inversion Ht; subst.
+  match goal with H : forall k t, In (k, (t, true)) attrs -> _ |- _ => specialize (H _ _ Hin) end. congruence.
+Qed.
+
+Lemma reject_undeclared_field sch k x kvs attrs :
+  In (k, x) kvs -> lookup k attrs = None -> conf_value sch (VRecord kvs) (TRecord attrs false) = false.
+Proof.
+  intros Hin Hl. apply conf_value_false. intros [Ht _]. inversion Ht; subst.
+  match goal with H : false = false -> _ |- _ => specialize (H eq_refl _ _ Hin) end.
+  apply has_key_false_lookup in Hl. congruence.
+Qed.
+
+Lemma reject_enum_id_anywhere sch u v t i ch :
+  UidIn u v -> find_etype sch (uty u) = Some i -> et_enum i = Some ch -> ~ In (ueid u) ch ->
+  conf_value sch v t = false.
+Proof.
+  intros Hin Hf He Hn. apply conf_value_false. intros [_ Hu]. destruct (Hu u Hin) as [H _]. eauto.
+Qed.
+
+Lemma reject_undeclared_action_uid_anywhere sch u v t :
+  UidIn u v -> is_action_type (uty u) = true -> find_action sch u = None -> conf_value sch v t = false.
+Proof.
+  intros Hin Ha Hf. apply conf_value_false. intros [_ Hu]. destruct (Hu u Hin) as [_ H].
+  destruct (H Ha) as [ai Hai]. congruence.
+Qed.
+
+Lemma invalid_uid_anywhere sch u v : UidIn u v -> ~ UidValid sch u -> ~ UidsValid sch v.
+Proof. intros Hin Hn Hv. apply Hn. apply Hv. exact Hin. Qed.
+
+(* entities of a declared, non-action type *)
+Section EntityFaults.
+  Variable sch : schema.
+  Hypothesis Hwf : schema_wf sch = true.
+  Variables (u : uid) (d : edata) (i : etype_info).
+  Hypothesis Hna : is_action_type (uty u) = false.
+  Hypothesis Hf : find_etype sch (uty u) = Some i.
+
+  Lemma entity_conforms_inv :
+    conf_entity sch (u, d) = None ->
+    UidValid sch u /\
+    (forall k, In k (required_attrs i) -> has_key k (eattrs d) = true) /\
+    (forall k v, In (k, v) (eattrs d) ->
+       match lookup k (et_attrs i) with
+       | Some (t, _) => ValueConforms sch v t
+       | None => et_open i = true /\ UidsValid sch v
+       end) /\
+    (forall a, In a (eancestors d) -> UidValid sch a /\ PermittedAncestorType sch (uty u) (uty a)) /\
+    (forall k v, In (k, v) (etags d) -> match et_tags i with Some t => ValueConforms sch v t | None => False end).
+  Proof.
+    intros H. apply (conf_entity_iff _ _ Hwf) in H. unfold EntityConforms in H. cbn [fst snd] in H.
+    rewrite Hna in H. destruct H as [i' [Hi H]]. rewrite Hf in Hi. inversion Hi; subst i'. exact H.
+  Qed.
+
+  Lemma reject_attr_wrong_type k v t r :
+    In (k, v) (eattrs d) -> lookup k (et_attrs i) = Some (t, r) -> conf_value sch v t = false ->
+    conf_entity sch (u, d) <> None.
+  Proof.
+    intros Hin Hl Hv Hc. apply entity_conforms_inv in Hc as (_ & _ & H & _). specialize (H _ _ Hin).
+    rewrite Hl in H. apply conf_value_false in Hv. auto.
+  Qed.
+
+  Lemma reject_missing_required_attr k :
+    In k (required_attrs i) -> has_key k (eattrs d) = false -> conf_entity sch (u, d) <> None.
+  Proof.
+    intros Hin Hk Hc. apply entity_conforms_inv in Hc as (_ & H & _). specialize (H _ Hin). congruence.
+  Qed.
+
+  Lemma reject_undeclared_attr k v :
+    In (k, v) (eattrs d) -> lookup k (et_attrs i) = None -> et_open i = false -> conf_entity sch (u, d) <> None.
+  Proof.
+    intros Hin Hl Ho Hc. apply entity_conforms_inv in Hc as (_ & _ & H & _). specialize (H _ _ Hin).
+    rewrite Hl in H. destruct H. congruence.
+  Qed.
+
+  Lemma reject_open_attr_invalid_uid k v :
+    In (k, v) (eattrs d) -> lookup k (et_attrs i) = None -> ~ UidsValid sch v -> conf_entity sch (u, d) <> None.
+  Proof.
+    intros Hin Hl Hn Hc. apply entity_conforms_inv in Hc as (_ & _ & H & _). specialize (H _ _ Hin).
+    rewrite Hl in H. destruct H. auto.
+  Qed.
+
+  Lemma reject_tag_wrong_type k v t :
+    In (k, v) (etags d) -> et_tags i = Some t -> conf_value sch v t = false -> conf_entity sch (u, d) <> None.
+  Proof.
+    intros Hin Ht Hv Hc. apply entity_conforms_inv in Hc as (_ & _ & _ & _ & H). specialize (H _ _ Hin).
+    rewrite Ht in H. apply conf_value_false in Hv. auto.
+  Qed.
+
+  Lemma reject_tag_on_tagless_type k v :
+    In (k, v) (etags d) -> et_tags i = None -> conf_entity sch (u, d) <> None.
+  Proof.
+    intros Hin Ht Hc. apply entity_conforms_inv in Hc as (_ & _ & _ & _ & H). specialize (H _ _ Hin).
+    rewrite Ht in H. exact H.
+  Qed.
+
+  Lemma reject_bad_ancestor_type a :
+    In a (eancestors d) -> ~ PermittedAncestorType sch (uty u) (uty a) -> conf_entity sch (u, d) <> None.
+  Proof.
+    intros Hin Hn Hc. apply entity_conforms_inv in Hc as (_ & _ & _ & H & _). destruct (H _ Hin). auto.
+  Qed.
+
+  Lemma reject_invalid_ancestor_uid a :
+    In a (eancestors d) -> ~ UidValid sch a -> conf_entity sch (u, d) <> None.
+  Proof.
+    intros Hin Hn Hc. apply entity_conforms_inv in Hc as (_ & _ & _ & H & _). destruct (H _ Hin). auto.
+  Qed.
+
+  Lemma reject_invalid_own_uid : ~ UidValid sch u -> conf_entity sch (u, d) <> None.
+  Proof. intros Hn Hc. apply entity_conforms_inv in Hc as (H & _). auto. Qed.
+End EntityFaults.
+
+Lemma enum_id_invalid sch u i ch :
+  find_etype sch (uty u) = Some i -> et_enum i = Some ch -> ~ In (ueid u) ch -> ~ UidValid sch u.
+Proof. intros Hf He Hn [H _]. eauto. Qed.
+
+Lemma reject_undeclared_entity_type sch u d :
+  is_action_type (uty u) = false -> find_etype sch (uty u) = None -> conf_entity sch (u, d) = Some CUnexpectedEntityType.
+Proof. intros Ha Hf. unfold conf_entity. cbn [fst snd]. rewrite Ha, Hf. reflexivity. Qed.
+
+Lemma reject_undeclared_action_entity sch u d :
+  is_action_type (uty u) = true -> find_action sch u = None -> conf_entity sch (u, d) = Some CUndeclaredAction.
+Proof.
+  intros Ha Hf. unfold conf_entity. cbn [fst snd]. rewrite Ha. unfold conf_action, action_entity. rewrite Hf. reflexivity.
+Qed.
+
+Lemma reject_action_mismatch sch u d :
+  is_action_type (uty u) = true ->
+  (eattrs d <> [] \/ etags d <> [] \/ ~ (forall a, In a (eancestors d) <-> In a (action_ancestors sch u))) ->
+  conf_entity sch (u, d) <> None.
+Proof.
+  intros Ha Hm Hc. unfold conf_entity in Hc. cbn [fst snd] in Hc. rewrite Ha in Hc.
+  apply conf_action_iff in Hc as (_ & H1 & H2 & H3). destruct Hm as [Hm|[Hm|Hm]]; auto.
+Qed.
+
+(* requests *)
+Lemma reject_request_undeclared_action sch q :
+  find_action sch (raction q) = None -> conf_request sch q <> None.
+Proof. intros Hf Hc. apply conf_request_iff in Hc as (_ & _ & [ai [Hai _]] & _). congruence. Qed.
+
+Lemma reject_request_principal_not_applicable sch q ai :
+  find_action sch (raction q) = Some ai -> ~ In (uty (rprincipal q)) (ai_principals ai) -> conf_request sch q <> None.
+Proof.
+  intros Hf Hn Hc. apply conf_request_iff in Hc as (_ & _ & [ai' [Hai [H _]]] & _).
+  rewrite Hf in Hai. inversion Hai; subst. auto.
+Qed.
+
+Lemma reject_request_resource_not_applicable sch q ai :
+  find_action sch (raction q) = Some ai -> ~ In (uty (rresource q)) (ai_resources ai) -> conf_request sch q <> None.
+Proof.
+  intros Hf Hn Hc. apply conf_request_iff in Hc as (_ & _ & [ai' [Hai [_ H]]] & _).
+  rewrite Hf in Hai. inversion Hai; subst. auto.
+Qed.
+
+Lemma reject_request_context sch q ai :
+  find_action sch (raction q) = Some ai -> conf_value sch (VRecord (rcontext q)) (ai_context ai) = false ->
+  conf_request sch q <> None.
+Proof.
+  intros Hf Hv Hc. apply conf_request_iff in Hc as (_ & _ & _ & [ai' [Hai H]]).
+  rewrite Hf in Hai. inversion Hai; subst. apply conf_value_false in Hv. auto.
+Qed.
+
+Lemma reject_request_scope_var sch q :
+  ~ ScopeVarConforms sch (rprincipal q) \/ ~ ScopeVarConforms sch (rresource q) -> conf_request sch q <> None.
+Proof. intros Hn Hc. apply conf_request_iff in Hc as (H1 & H2 & _). destruct Hn; auto. Qed.
+
+(* ---------------------------------------------------------------- entry points *)
+Lemma verdict_accept r : verdict_of r = Accept <-> r = None.
+Proof. destruct r; cbn; split; intros; try discriminate; reflexivity. Qed.
+
+Theorem ep_add_iff sch es :
+  schema_wf sch = true ->
+  (ep_add_entities sch es = Accept <-> forall e, In e es -> EntityConforms sch e).
+Proof.
+  intros Hwf. unfold ep_add_entities, ep_add_entities_r. rewrite verdict_accept, first_err_none.
+  split; intros H e He; apply (conf_entity_iff _ _ Hwf); auto.
+Qed.
+
+Theorem ep_upsert_iff sch es :
+  schema_wf sch = true ->
+  (ep_upsert_entities sch es = Accept <-> forall e, In e es -> EntityConforms sch e).
+Proof. exact (ep_add_iff sch es). Qed.
+
+Theorem ep_from_entities_iff sch es :
+  schema_wf sch = true ->
+  (ep_from_entities sch es = Accept <->
+   (forall e, In e es -> is_action_entity e = false -> EntityConforms sch e) /\
+   (forall e, In e (tc_close es) -> is_action_entity e = true -> EntityConforms sch e)).
+Proof.
+  intros Hwf. unfold ep_from_entities, ep_from_entities_r.
+  rewrite verdict_accept, cthen_none, !first_err_none. apply and_iff2.
+  - split.
+    + intros H e He Ha. apply (conf_entity_iff _ _ Hwf). apply H. apply filter_In. rewrite Ha. auto.
+    + intros H e He. apply filter_In in He as [He Ha]. apply (conf_entity_iff _ _ Hwf). apply H; auto.
+      destruct (is_action_entity e); [discriminate | reflexivity].
+  - split.
+    + intros H e He Ha. apply (conf_entity_iff _ _ Hwf). apply H. apply filter_In. auto.
+    + intros H e He. apply filter_In in He as [He Ha]. apply (conf_entity_iff _ _ Hwf). apply H; auto.
+Qed.
+
+(* the closure only changes ancestor lists: non-action entities are checked exactly as given *)
+Theorem ep_request_new_iff sch q : ep_request_new sch q = Accept <-> RequestConforms sch q.
+Proof. unfold ep_request_new. rewrite verdict_accept. apply conf_request_iff. Qed.
+
+Theorem ep_context_validate_iff sch a ctx : ep_context_validate sch a ctx = Accept <-> ContextConforms sch a ctx.
+Proof. unfold ep_context_validate. rewrite verdict_accept. apply conf_context_iff. Qed.
+
+Lemma after_parse_accept p r : after_parse p r = Accept -> p = JOk /\ r = None.
+Proof. destruct p, r; cbn; intros H; try discriminate; auto. Qed.
+
+(* the JSON entry points run the same checker after the type-directed parse *)
+Theorem ep_entity_from_json_sound sch e :
+  schema_wf sch = true -> ep_entity_from_json sch e = Accept -> EntityConforms sch e.
+Proof.
+  intros Hwf H. apply after_parse_accept in H as [_ H]. apply (conf_entity_iff _ _ Hwf). exact H.
+Qed.
+
+Theorem ep_entities_from_json_sound sch es :
+  schema_wf sch = true -> ep_entities_from_json sch es = Accept -> ep_from_entities sch es = Accept.
+Proof.
+  intros Hwf H. apply after_parse_accept in H as [_ H]. unfold ep_from_entities. rewrite H. reflexivity.
+Qed.
+
+Theorem ep_add_entities_from_json_sound sch es :
+  schema_wf sch = true -> ep_add_entities_from_json sch es = Accept -> forall e, In e es -> EntityConforms sch e.
+Proof.
+  intros Hwf H. apply after_parse_accept in H as [_ H]. apply (ep_add_iff _ _ Hwf).
+  unfold ep_add_entities. rewrite H. reflexivity.
+Qed.
+
+Theorem ep_json_same_checker sch :
+  (forall e, ep_entity_from_json sch e = after_parse (jparse_entity sch e) (conf_entity sch e)) /\
+  (forall es, ep_entities_from_json sch es = after_parse (jres_all (jparse_entity sch) es) (ep_from_entities_r sch es)) /\
+  (forall es, ep_add_entities_from_json sch es = after_parse (jres_all (jparse_entity sch) es) (first_err (conf_entity sch) es)) /\
+  (forall es, ep_add_entities sch es = verdict_of (first_err (conf_entity sch) es)) /\
+  (forall es, ep_upsert_entities sch es = verdict_of (first_err (conf_entity sch) es)) /\
+  (forall es, ep_from_entities sch es =
+     verdict_of (cthen (first_err (conf_entity sch) (filter (fun e => negb (is_action_entity e)) es))
+                       (first_err (conf_entity sch) (filter is_action_entity (tc_close es))))) /\
+  (forall q, ep_request_new sch q = verdict_of (conf_request sch q)) /\
+  (forall a c, ep_context_validate sch a c = verdict_of (conf_context sch a c)).
+Proof. repeat split. Qed.
+
+(* ---------------------------------------------------------------- a concrete schema: non-vacuity
+   and the witness for Context::from_json *)
+Definition ex_user : etype := [s2str "User"].
+Definition ex_group : etype := [s2str "Group"].
+Definition ex_color : etype := [s2str "Color"].
+Definition ex_view : uid := mkUid [s2str "Action"] (s2str "view").
+Definition ex_all : uid := mkUid [s2str "Action"] (s2str "all").
+Definition ex_ctx_ty : ty :=
+  TRecord [(s2str "c", (ty_entity ex_color, false)); (s2str "n", (TLong, true));
+           (s2str "s", (ty_set TLong, false))] false.
+Definition ex_schema : schema :=
+  mkSchema
+    [(ex_user, mkEtypeInfo
+                 [(s2str "c", (ty_entity ex_color, false));
+                  (s2str "fr", (ty_set (ty_entity ex_user), false));
+                  (s2str "n", (TLong, true));
+                  (s2str "r", (TRecord [(s2str "z", (ty_set (ty_entity ex_color), true))] false, false))]
+                 false (Some (ty_set TString)) [] None);
+     (ex_group, mkEtypeInfo [] false None [ex_user] None);
+     (ex_color, mkEtypeInfo [] false None [] (Some [s2str "red"; s2str "green"]))]
+    [(ex_all, mkActionInfo [] [] (TRecord [] false) [ex_view]);
+     (ex_view, mkActionInfo [ex_user] [ex_group] ex_ctx_ty [])].
+
+Definition ex_uid (t : etype) (s : string) : uid := mkUid t (s2str s).
+Definition ex_alice : uid * edata :=
+  (ex_uid ex_user "alice",
+   mkEdata [(s2str "c", VEntity (ex_uid ex_color "red")); (s2str "n", VLong 1);
+            (s2str "r", VRecord [(s2str "z", VSet [VEntity (ex_uid ex_color "green")])])]
+           [(s2str "t", VSet [VString (s2str "x")])]
+           [ex_uid ex_group "g"]).
+Definition ex_request : request :=
+  mkRequest (ex_uid ex_user "alice") ex_view (ex_uid ex_group "g") [(s2str "n", VLong 1)].
+(* the F-d witness: `n` is declared Long, the context holds a string *)
+Definition ex_bad_ctx : list (str * value) := [(s2str "n", VString (s2str "x"))].
+(* ... and an undeclared enumerated id *)
+Definition ex_bad_ctx_enum : list (str * value) :=
+  [(s2str "c", VEntity (ex_uid ex_color "blue")); (s2str "n", VLong 1)].
+
+Lemma ex_schema_wf : schema_wf ex_schema = true.
+Proof. vm_compute. reflexivity. Qed.
+
+Theorem context_from_json_refuted :
+  exists sch a ctx,
+    schema_wf sch = true /\
+    ep_context_from_json sch a ctx = Accept /\
+    ~ ContextConforms sch a ctx /\
+    ep_context_validate sch a ctx = Reject CInvalidContext.
+Proof.
+  exists ex_schema, ex_view, ex_bad_ctx. split; [exact ex_schema_wf|]. split; [vm_compute; reflexivity|]. split.
+  - intros H. apply conf_context_iff in H. vm_compute in H. discriminate.
+  - vm_compute. reflexivity.
+Qed.
+
+Theorem context_from_json_refuted_enum :
+  exists sch a ctx,
+    schema_wf sch = true /\
+    ep_context_from_json sch a ctx = Accept /\
+    ~ ContextConforms sch a ctx /\
+    ep_context_validate sch a ctx = Reject CInvalidEnumEntity.
+Proof.
+  exists ex_schema, ex_view, ex_bad_ctx_enum. split; [exact ex_schema_wf|]. split; [vm_compute; reflexivity|]. split.
+  - intros H. apply conf_context_iff in H. vm_compute in H. discriminate.
+  - vm_compute. reflexivity.
+Qed.
